@@ -4,7 +4,7 @@ import random
 import numpy as np
 import pandas as pd
 
-from .. import common
+from .. import common, checklib
 from ..rtc import par
 
 LEVEL = "exploration"
@@ -195,7 +195,13 @@ def known_class(cls, sig):
     return None
 
 
+def PROOFS():
+    from ..contracts import call_resolver_c
+    return [("vf.contracts.call_resolver_c", ["formulae.terms.call_resolver.LazyValue.eval"])]
+
+
 def run(report, findings):
+    checklib.run_proofs(report, "C12", PROOFS())
     fk = {f["id"] for f in findings if f.get("kind") == "finding"}
     total = 2400 if report.tier == "quick" else 40000
     res = []
